@@ -486,9 +486,11 @@ def run_check(modname: str, tier: str, seed: int, replay: Optional[str] = None) 
         fp = srcmap.compare(pid, REPO)
     except Exception as e:
         fp = {"status": "no-baseline", "changed": [], "error": f"{type(e).__name__}: {e}"}
-    if tie_module(pid):
-        fell = {k: v for k, v in TRANSLATION.items() if v != "translated"}
-        fp["translated_decision_code"] = dict(TRANSLATION)
+    from . import translate as _tr
+    mine = {k: v for k, v in TRANSLATION.items() if k in _tr.functions_for(pid)}
+    if mine:
+        fell = {k: v for k, v in mine.items() if v != "translated"}
+        fp["translated_decision_code"] = mine
         if fell:
             # the translator no longer understands a function: its tie theorems are vacuous on this run (they are
             # stated against the model's own decision); the correspondence remains the tie -> explore further
